@@ -261,6 +261,7 @@ PROPS = {
     'C01': dict(
         rules=[r_window.s01_iterator_discipline, r_window.s01c_single_slot_mapping, r_window.s03_sibling_constructors, r_winv.a04_window_invariant, r_winv.a07_deserialize_accepts_valid,
                lambda ctx: r_serde.s02_manual_serde_tables(ctx, only=('Window',)),
+               lambda ctx: r_serde.s10c_clone_is_copy(ctx, only_prefix='core::window::'),
                lambda ctx: r_absint.a01_constructors(ctx, groups=('window-ctor', 'deserialize'), labels=('Window',), rule_id='A01w', min_entries=6,
                    title='Window::{new, from_parts, empty, From<Vec>, From<Box<[T]>>} and Window::deserialize: every reachable panic is one the constructor documents (# Panics); deserialize reaches none')],
         feature_sets=_sets(['default'], ['default', 'u16', 'ci']),
@@ -270,7 +271,7 @@ PROPS = {
                      'a yielded item decrements r exactly once by 1 and is preceded by the test r != 0, None is returned exactly under r == 0 '
                      'without touching r; every other Option-returning override (last) looks at r before yielding; count returns r. '
                      'Hence the number of items still to come equals size_hint at every split point and an exhausted or empty iterator '
-                     'never yields. (S01c) get and Index::index obtain their slot from the one mapping slice_index(own index). (S03) new / from_parts / '
+                     'never yields. (S10c) Clone of Window and its iterators is derived, or hand-written and field-wise: clone() builds a literal whose every field is the clone of the same field, clone_from() takes every field from the source on every path (a copy that keeps its own cursor is a rotated window). (S01c) get and Index::index obtain their slot from the one mapping slice_index(own index). (S03) new / from_parts / '
                      'empty agree on the derived fields: s_1 = size.saturating_sub(1), buffer length = size. (S02) Window\'s hand-written '
                      'Serialize/Deserialize agree on the field table (buf, index). (A01w) the constructors reach only documented panics and '
                      'deserialize none. (A04) inductive representation invariant (buf.len == size, s_1 == size-1, index < size; iterator cursor < size, '
